@@ -12,6 +12,7 @@ import (
 	"seehuhn.de/go/sfnt/glyf"
 	"seehuhn.de/go/sfnt/glyph"
 	"seehuhn.de/go/sfnt/maxp"
+	"seehuhn.de/go/sfnt/opentype/classdef"
 	"seehuhn.de/go/sfnt/opentype/coverage"
 	"seehuhn.de/go/sfnt/opentype/gtab"
 )
@@ -178,9 +179,9 @@ func verifValueRecord(tag string, lite bool) *gtab.GposValueRecord {
 // VerifH_C19_roundtrip: Parse(Explain(L)) == L for lookup lists of each kind with symbolic flags (all subsets
 // of ignore marks / ligatures / base glyphs), symbolic glyph ids, value records and nested actions.
 func VerifH_C19_roundtrip() {
-	kind := verifChoose("kind", 10)
+	kind := verifChoose("kind", 11)
 	nf := verifParam("fonts", 4)
-	if nf == 2 && (kind == 4 || kind >= 7) {
+	if nf == 2 && (kind == 4 || (kind >= 7 && kind != 10)) {
 		nf = 1 // quick tier: the kinds with many symbolic fields use two of the four fonts
 	}
 	fontKind := verifChoose("font", nf) * (4 / nf)
@@ -227,6 +228,15 @@ func VerifH_C19_roundtrip() {
 		g1, g2 := verifGID("g"), verifGID("g")
 		verifAssume(g1 < g2)
 		st, typ, gpos = &gtab.Gpos1_2{Cov: coverage.Table{g1: 0, g2: 1}, Adjust: []*gtab.GposValueRecord{verifValueRecord("v", false), verifValueRecord("w", true)}}, 1, true
+	case 10: // contextual, class based: rules for two different first classes
+		g1, g2 := verifGID("g"), verifGID("g")
+		verifAssume(g1 < g2)
+		c1, c2 := verifU16("cls"), verifU16("cls")
+		verifAssume(c1 <= 2 && c2 <= 2)
+		sym := []gtab.SeqLookup{{SequenceIndex: verifU16("seq"), LookupListIndex: gtab.LookupIndex(verifU16("lookup"))}}
+		fix := []gtab.SeqLookup{{SequenceIndex: 1, LookupListIndex: 2}, {SequenceIndex: 0, LookupListIndex: 7}}
+		st, typ = &gtab.SeqContext2{Cov: coverage.Table{g1: 0, g2: 1}, Input: classdef.Table{g1: 1, g2: 2},
+			Rules: [][]*gtab.ClassSeqRule{nil, {{Input: []uint16{c1}, Actions: sym}}, {{Input: []uint16{c2}, Actions: fix}, {Input: nil, Actions: fix[:1]}}}}, 5
 	default: // pair adjustment
 		pa := &gtab.PairAdjust{First: verifValueRecord("v", false)}
 		if verifBool("second") {
@@ -283,5 +293,26 @@ func VerifH_C19_sched() {
 	} else {
 		verifAssert(verifSame(ll0, ll1), "result does not depend on the schedule")
 	}
+	verifReach("done")
+}
+
+// VerifH_C19_nocmap: fonts without a usable character map: Parse returns an error (or lookups, when the text
+// needs no character map) and leaves no goroutine behind, for every text one byte away from a template.
+func VerifH_C19_nocmap() {
+	k := verifChoose("template", len(verifTemplates))
+	b := []byte(verifTemplates[k])
+	pos := verifChoose("pos", len(b))
+	b[pos] = verifU8("c")
+	verifAssume(b[pos] < 0x80)
+	f := verifFont19(true, true)
+	switch verifChoose("cmap", 2) {
+	case 0:
+		f.CMapTable = nil
+	default:
+		// a subtable format the library does not implement (format 2), as cmap.Decode would deliver it
+		f.CMapTable = cmap.Table{cmap.Key{PlatformID: 3, EncodingID: 10}: []byte{0, 2, 0, 6, 0, 0}}
+	}
+	Parse(f, string(b))
+	verifAssert(verifLeaked() == 0, "no goroutine left running")
 	verifReach("done")
 }
